@@ -31,7 +31,7 @@ def sig_c06(prefix, detail, meta):
 def run(tier, replay=None):
     rep = Report("C06", tier, "fault_enumeration")
     cells = [("g++", "c++17")] if tier == "quick" else cxx.QUICK_CELLS
-    cap = 3 if tier == "quick" else 10
+    cap = 3 if tier == "quick" else 6
     schemas = shapes.catalogue(tier, "littleEndian")
     if tier != "quick":
         schemas += shapes.catalogue("quick", "bigEndian")
@@ -39,7 +39,7 @@ def run(tier, replay=None):
                        "truncation": "every n in 0..len, plus len+1 and len+9 (trailing junk)",
                        "corruption": "every blockLength / numInGroup / data length instance at every nesting level and entry overwritten with 0, 1, fit-1, fit+1, max/2+1, max-1, max (one at a time%s)" % ("; also combined with n in {len-1, len, len+9}" if tier != "quick" else ""),
                        "views": "message, every top-level group", "configuration": "SBEPP_DISABLE_ASSERTS + exact-size buffer ending at a PROT_NONE page (release behaviour: any read at offset >= n faults)",
-                       "cpu_budget_ms_per_call": 250, "cells": [cxx.cell_name(c) for c in cells]})
+                       "cpu_budget_ms_per_call": 100, "cells": [cxx.cell_name(c) for c in cells]})
     kw = {"cap": cap, "pairs": tier != "quick", "ok_fields": ("valid_seen",)}
     total_cases = 0
     for cfgname, defines in (("release", ["SBEPP_DISABLE_ASSERTS"]),):
